@@ -1748,6 +1748,20 @@ class Executor:
             sq.len = self.fresh('seq_len', z3.IntSort())
             sq.arr = self.fresh('seq_arr', z3.ArraySort(z3.IntSort(), sq.kind.sort))
             self.path.pc.append(sq.len >= 0)
+        # object fields stored to in the body or by the loop target (e.g. `for ctx.position, ctx.item in ...`)
+        attr_nodes = [n for st in (list(node.body) + ([node.target] if isinstance(node, ast.For) else []))
+                      for n in ast.walk(st) if isinstance(n, ast.Attribute) and isinstance(n.ctx, ast.Store)]
+        done = set()
+        for an in attr_nodes:
+            if not all(isinstance(x, (ast.Name, ast.Attribute, ast.Load, ast.Store)) for x in ast.walk(an.value)):
+                continue
+            try:
+                ob = self.eval(_load(an.value), env)
+            except (OutOfSubset, PyRaise):
+                continue
+            if isinstance(ob, VObj) and (id(ob), an.attr) not in done and an.attr in ob.fields:
+                done.add((id(ob), an.attr))
+                ob.fields[an.attr] = self.havoc_like(f'{ob.name}.{an.attr}', ob.fields[an.attr])
         if spec.havoc_hook is not None:
             spec.havoc_hook(self, env)
         ghost_i = env.lookup(f'_i{ordinal}')
